@@ -114,6 +114,7 @@ func c06Build(k *c06Keys, r *mrand.Rand, win map[string]world.Window) *world.Wor
 }
 
 func c06(x *mon.Ctx) {
+	enableTwins(x)
 	x.Level = "fault_enumeration"
 	x.Rule = "14 artefact roles, each with its own window, plus the two roles of the usual PCS situation in which TCB Info and QE Identity arrive with ONE byte-identical issuer chain (shared signer, shared header root: governed by both the TCB-Info and the QE-Identity time) (the root is issued five times with one key and name: in the quote, in each of the three issuer-chain headers, in the pool; the PCK-CRL header carries its own copy of the intermediate; TCB-Info and QE-Identity have different signers): (1) boundary grid — for each role's expiry {1 s before, at, 1 s after} at each governing time entry with everything else 10 years away, and for the five path-validated certificates the same around notBefore; (2) 'judged at its own time' — for every role and every time entry: only that entry past the role's expiry (must reject iff the entry governs the role) and every OTHER entry past it while the governing ones are before (must accept); (3) monotonicity — all five times at expiry + {1 s, 1 h, 1 d, 30 d, 365 d} must reject; (4) random assignments of windows and five pairwise distinct times judged by the reference (accept => every listed condition holds at its own time). Run at the lowest option level where the role matters and above. distinct = (class, role, time entry, offset, level)."
 	x.Assume = []string{"zero time.Time entries are excluded (the statement speaks of caller-supplied times)", "crypto/x509 enforces validity periods on the paths it validates"}
